@@ -68,7 +68,7 @@ pub fn inject_error(files: &Files, rng: &mut Rng) -> (&'static str, Files) {
     let nl = if f[&any].contains("\r\n") { "\r\n" } else { "\n" };
     // the phase first (each equally likely), then one way of failing in it
     let kind = match rng.below(7) {
-        0 => *rng.pick(&[0usize, 1, 9, 10]),
+        0 => *rng.pick(&[0usize, 1, 9, 10, 11, 11]),
         1 => *rng.pick(&[2usize, 3]),
         2 => 4,
         3 => 5,
@@ -96,6 +96,15 @@ pub fn inject_error(files: &Files, rng: &mut Rng) -> (&'static str, Files) {
             t.push_str(nl);
             t.push_str(&"^".repeat(n));
             t.push_str(nl);
+            "lexical"
+        }
+        11 => {
+            // unexpected characters as the very last bytes: nothing follows, not even a newline
+            let t = f.get_mut(&any).unwrap();
+            while t.ends_with('\n') || t.ends_with('\r') || t.ends_with(' ') {
+                t.pop();
+            }
+            t.push_str(*rng.pick(&[" ^", "^^^", " \"never closed", " 😉"]));
             "lexical"
         }
         9 => {
@@ -528,7 +537,7 @@ impl Builder<'_> {
     }
 }
 
-pub fn c15_gen_cfg(rng: &mut Rng, giant_ok: bool) -> GenCfg {
+pub fn c15_gen_cfg(rng: &mut Rng, giant_ok: bool, clash_ok: bool) -> GenCfg {
     if rng.chance(1, 50) && giant_ok {
         // a very large module (tens of kilobytes; on one line under layout shape 1)
         return GenCfg {
@@ -540,6 +549,7 @@ pub fn c15_gen_cfg(rng: &mut Rng, giant_ok: bool) -> GenCfg {
             shadow_bias: 5,
             res_range: (50, 100),
             odd_spellings: false,
+            clashing_imports: false,
         };
     }
     GenCfg {
@@ -551,6 +561,7 @@ pub fn c15_gen_cfg(rng: &mut Rng, giant_ok: bool) -> GenCfg {
         shadow_bias: 5,
         res_range: (1, 3),
         odd_spellings: false,
+        clashing_imports: clash_ok && rng.chance(1, 3),
     }
 }
 
@@ -571,7 +582,7 @@ pub fn plan(seed: u64, prop: &str, run: u64, sem: Sem) -> Plan {
         sw.max_events = 60;
         sw.unsaved_closes = sw.unsaved_closes && sched.chance(1, 3);
     }
-    let cfg = c15_gen_cfg(&mut wl, !semantic);
+    let cfg = c15_gen_cfg(&mut wl, !semantic, sem != Sem::C18);
     let mut programs = vec![gen::generate(&mut wl, &cfg)];
     let layout = |wl: &mut Rng, sw: &Swarm| Layout {
         seed: wl.next_u64(),
@@ -666,6 +677,7 @@ pub fn plan(seed: u64, prop: &str, run: u64, sem: Sem) -> Plan {
             shadow_bias: 3,
             res_range: (1, 2),
             odd_spellings: false,
+            clashing_imports: false,
         };
         let ast_b = gen::generate(&mut wl, &cfg_b);
         let lb = layout(&mut wl, &sw);
